@@ -63,8 +63,85 @@ class C20(Prop):
                                      "mutation": mut})
         return st.one_of(api, api, edif, ver)
 
+    # ---- directed scenes past the sizes random designs reach: a net with hundreds of pins, sibling
+    # names that differ only beyond the 255th character
+    def fixed_cases(self, tier):
+        out = []
+        for pins in (16, 257, 300):
+            for copy in ("rebuild", "clone"):
+                for mutate in (False, True):
+                    out.append({"scene": ["bignet", pins, copy, mutate]})
+        for n in (40, 255, 256, 300):
+            for copy in ("rebuild", "clone"):
+                for mutate in (False, True):
+                    out.append({"scene": ["longnames", n, copy, mutate]})
+        return out
+
+    @staticmethod
+    def build_scene(kind, n):
+        import spydrnet as sdn
+
+        nl = sdn.Netlist(name="n")
+        L = nl.create_library(name="work")
+        leaf = L.create_definition(name="leaf")
+        lp = leaf.create_port(name="i", pins=1, direction=sdn.IN)
+        T = L.create_definition(name="top")
+        a = T.create_cable(name="a", wires=1)
+        b = T.create_cable(name="b", wires=1)
+        if kind == "bignet":
+            insts = [T.create_child(name="u%03d" % k, reference=leaf) for k in range(n)]
+            for I in insts:
+                a.wires[0].connect_pin(I.pins[lp.pins[0]])
+            spare = T.create_child(name="spare", reference=leaf)
+            b.wires[0].connect_pin(spare.pins[lp.pins[0]])
+        else:
+            base = "P" * (n - 1)
+            x = T.create_child(name=base + "a", reference=leaf)
+            y = T.create_child(name=base + "b", reference=leaf)
+            a.wires[0].connect_pin(x.pins[lp.pins[0]])
+            b.wires[0].connect_pin(y.pins[lp.pins[0]])
+        nl.set_top_instance(T, "top_i")
+        return nl
+
+    def run_scene(self, res, scene):
+        import spydrnet as sdn
+
+        kind, n, copy, mutate = scene
+        N = self.build_scene(kind, n)
+        M = N.clone() if copy == "clone" else self.build_scene(kind, n)
+        res.label("scene-" + kind, "copy-" + copy)
+        res.nontrivial = True
+        if mutate:
+            T = M.top_instance.reference
+            a, b = next(T.get_cables("a")).wires[0], next(T.get_cables("b")).wires[0]
+            if kind == "bignet":
+                # one of the many pins goes to the other net
+                p = list(a.pins)[len(a.pins) // 2]
+                a.disconnect_pin(p)
+                b.connect_pin(p)
+            else:
+                # the two long-named siblings swap nets
+                pa, pb = list(a.pins)[0], list(b.pins)[0]
+                a.disconnect_pin(pa)
+                b.disconnect_pin(pb)
+                a.connect_pin(pb)
+                b.connect_pin(pa)
+        try:
+            compare(N, M)
+            raised = None
+        except Exception as e:  # noqa
+            raised = e
+        if mutate and raised is None:
+            res.violate("C20:difference-accepted:scene-%s" % kind, "scene %r" % (scene,))
+        if not mutate and raised is not None:
+            res.violate("C20:equal-copy-rejected:scene-%s:%s" % (kind, type(raised).__name__),
+                        "scene %r: %r" % (scene, raised))
+        return res
+
     def run(self, case):
         res = Result()
+        if "scene" in case:
+            return self.run_scene(res, case["scene"])
         if case["copy"] in ("edif-roundtrip", "verilog-roundtrip"):
             pair = self.roundtrip_pair(res, case)
             if pair is None:
